@@ -26,7 +26,9 @@ const PROP: &str = "C10";
 fn dhw(ep: &EnergyPerformance) -> Result<f64, String> {
     match safe::guard(|| cteepbd::cte::fraccion_renovable_acs_nrb(ep)) {
         Out::Ok(v) => Ok(v as f64),
-        Out::Err(..) => Err("err".into()),
+        // the message too: `incorpora_demanda_renovable_acs_nrb` stores it in the result (`misc.error_acs`, saved in the
+        // JSON and printed in the report), so between repetitions of the same text it must not vary
+        Out::Err(v, m) => Err(format!("err:{v}|{m}")),
         Out::Panic(m) => Err(format!("panic: {m}")),
     }
 }
@@ -37,6 +39,12 @@ fn dhw_same(a: &Result<f64, String>, b: &Result<f64, String>, band: f64) -> bool
         (Err(x), Err(y)) => x == y,
         _ => false,
     }
+}
+
+/// between a file and a rewriting of it (ids may be renumbered, lines reordered) only the kind of error is pinned
+fn dhw_same_class(a: &Result<f64, String>, b: &Result<f64, String>, band: f64) -> bool {
+    let class = |r: &Result<f64, String>| r.clone().map_err(|e| e.split('|').next().unwrap_or("").to_string());
+    dhw_same(&class(a), &class(b), band)
 }
 
 fn run_text(text: &str, fac: &Factors, case: &Case) -> (String, Option<EnergyPerformance>) {
@@ -205,7 +213,7 @@ pub fn check_case(ctx: &Ctx, case: &Case, rw: &Rewrite, repeats: usize, with_cli
         if let Some(d0) = &dhw0 {
             let d2 = dhw(ep2);
             // splitting lines changes summation order inside the indicator as well
-            if !dhw_same(d0, &d2, dhw_band + 2e-5) {
+            if !dhw_same_class(d0, &d2, dhw_band + 2e-5) {
                 t.violation(
                     &format!("C10.result_changes_with_layout.{}", rw.names().join("+")),
                     format!("rewriting the file ({}) changes the renewable DHW fraction from {:?} to {:?}", rw.names().join("+"), d0, d2),
@@ -423,7 +431,13 @@ pub fn run(ctx: &Ctx) -> Report {
         if r.chance(1, 2) {
             o.class = Some(Class::Dyadic);
         }
-        let case = gen_case(r, &o, 25);
+        let mut case = gen_case(r, &o, 25);
+        if r.chance(1, 20) {
+            // several biomass DHW systems without declared output: the indicator is an error whose text must not
+            // depend on which system a hash set yields first (either kind of biomass)
+            crate::gen::plant_undeclared_biomass_dhw(&mut case.spec, r);
+            t.count("cases_with_undeclared_biomass_dhw_output");
+        }
         let rw = gen_rewrite(r);
         check_case(ctx, &case, &rw, repeats, idx % cli_every == 0, t);
     });
